@@ -69,10 +69,10 @@ class Demo:
     def run(self, env):
         s = self.sdir
         if self.kind == "unit":
-            rc, out = sh("git apply %s/demo_unit.diff && cargo test --offline --lib test::demo 2>&1 | tail -25" % s, cwd=WT, env=env)
+            rc, out = sh("git apply %s/demo_unit.diff && cargo test --offline%s --lib test::demo 2>&1 | tail -25" % (s, self.features), cwd=WT, env=env)
             sh("git apply -R %s/demo_unit.diff" % s, cwd=WT)
-            ok = "test result: ok" in out and "FAILED" not in out and "error" not in out
-            return ok, "git apply demo_unit.diff; cargo test --offline --lib test::demo", out
+            ok = "test result: ok" in out and "FAILED" not in out and "error" not in out and " 0 passed" not in out
+            return ok, "git apply demo_unit.diff; cargo test --offline%s --lib test::demo" % self.features, out
         if self.kind == "test":
             os.makedirs(WT + "/tests", exist_ok=True)
             shutil.copy(s + "/demo.rs", WT + "/tests/demo.rs")
